@@ -11,7 +11,7 @@ for f in sorted(glob.glob(os.path.join(V, "seeded", "*", "meta.json"))):
     errs = [p for p, v in sorted(checks.items()) if v["exit"] not in (0, 1)]
     def cell(x):
         return str(x).replace("|", "\\|").replace("\n", " ")
-    rows.append(f"| {m['id']} | {m['property']} | {cell(m.get('summary',''))[:230]} | {cell(m.get('needs',''))[:230]} | {'; '.join(caught) or '-'} | {', '.join(missed) or '-'}{(' errors: ' + ','.join(errs)) if errs else ''} | {cell(m.get('strengthening', '-'))} |")
+    rows.append(f"| {m['id']} | {m['property']} | {cell(m.get('summary',''))[:230]} | {cell(m.get('needs',''))[:230]} | {'; '.join(caught) or '-'} | {', '.join(missed) or '-'}{(' errors: ' + ','.join(errs)) if errs else ''} | {cell(m.get('strengthening') or m.get('note') or '-')} |")
 table = "| id | targets | change | needs to manifest | caught by (clause) | ran clean | missed at first; what was strengthened |\n|---|---|---|---|---|---|---|\n" + "\n".join(rows)
 n = len(rows)
 caught_n = sum(1 for f in glob.glob(os.path.join(V, "seeded", "*", "meta.json")) if json.load(open(f)).get("caught_by"))
@@ -19,6 +19,7 @@ first_missed = sum(1 for f in glob.glob(os.path.join(V, "seeded", "*", "meta.jso
 summary = f"\n{n} changes kept; {caught_n} are caught by at least one registered check in the quick tier (seed 1); {first_missed} of them were missed by their target check when first run and led to the strengthening named in the last column.\n\n"
 p = os.path.join(V, "DESIGN.md")
 s = open(p).read()
-s = re.sub(r"<!-- SEEDED-TABLE-BEGIN -->.*<!-- SEEDED-TABLE-END -->", "<!-- SEEDED-TABLE-BEGIN -->" + summary + table + "\n<!-- SEEDED-TABLE-END -->", s, flags=re.S)
+block = "<!-- SEEDED-TABLE-BEGIN -->" + summary + table + "\n<!-- SEEDED-TABLE-END -->"
+s = re.sub(r"<!-- SEEDED-TABLE-BEGIN -->.*<!-- SEEDED-TABLE-END -->", lambda _m: block, s, flags=re.S)
 open(p, "w").write(s)
 print(summary.strip())
